@@ -1,10 +1,11 @@
+import os
 subs=[("idle","stepIdle",True),("begin","stepBegin",False),("commit","stepCommit",False),("abort","stepAbort",False),("after","stepAfter",True),("use","stepUse",False),("sess","stepSess",False),("close","stepClose",False),("exp","stepExp",False)]
 pcname={"idle":".idle","after":".after"}
 head='''/-
   Lungo.Proofs.ConcOwn2 — the `starting` protocol invariant (Sinv) and the ownership invariant
   (Oinv), per sub-machine (generated mechanically).
 -/
-import Lungo.Proofs.ConcOwn
+import Lungo.Proofs.ConcOwnDefs
 namespace Lungo.Conc
 '''
 def thm(field, name, fn, haspc, hyps, goal, body):
@@ -29,14 +30,20 @@ for name,fn,haspc in subs:
   conc_split hs
   all_goals (
     refine ⟨fun sid => ?_, fun b sid => ?_, fun sid => ?_⟩
-    · have := s1 sid; goal_simp; grind
+    · first
+      | exact s1 sid
+      | (have := s1 sid; goal_simp; grind)
     · have := s2 b sid; have := s2 a sid; have := s3 sid
       by_cases hba : b = a
       · subst hba; goal_simp; grind
       · have hab : ¬ a = b := fun h => hba h.symm
         simp only [State.put, State.putS, State.finish, State.write, upd_apply, if_neg hba, if_neg hab]
-        goal_simp; grind
-    · have := s3 sid; goal_simp; grind)'''
+        first
+        | exact s2 b sid
+        | (goal_simp; grind)
+    · first
+      | exact s3 sid
+      | (have := s3 sid; goal_simp; grind))'''
     out+=thm("sinv",name,fn,haspc,"(inv1 : Inv1 s) (g1 : Sinv s)","Sinv s'",body)
 out+="\nend Lungo.Conc\n"
-open('/root/wt/a4/lean/Lungo/Proofs/ConcOwn2.lean','w').write(out)
+open(os.path.join(os.path.dirname(os.path.abspath(__file__)),'..','Lungo','Proofs')+'/ConcOwn2.lean','w').write(out)
